@@ -942,7 +942,7 @@ func (t *State) undoTxInternal(tx *pb.Transaction, batch kvdb.Batch) error {
 		uItem := &utxo.UtxoItem{}
 		uItem.Amount = big.NewInt(0)
 		uItem.Amount.SetBytes(amount)
-		uItem.FrozenHeight = txInput.FrozenHeight
+		uItem.FrozenHeight = t.frozenHeightOfSpentOutput(txInput)
 		t.utxo.UtxoCache.Insert(string(addr), utxoKey, uItem)
 		uBinary, uErr := uItem.Dumps()
 		if uErr != nil {
@@ -979,6 +979,20 @@ func (t *State) undoTxInternal(tx *pb.Transaction, batch kvdb.Batch) error {
 	}
 
 	return nil
+}
+
+// frozenHeightOfSpentOutput returns the frozen height the output referenced by txInput
+// was created with. The height declared in the input is never checked against the
+// stored output, so it cannot be trusted when the output is put back by an undo; it
+// is only used if the creating transaction can not be read.
+func (t *State) frozenHeightOfSpentOutput(txInput *protos.TxInput) int64 {
+	refTx, _, err := t.xmodel.QueryTx(txInput.RefTxid)
+	if err != nil || refTx == nil || txInput.RefOffset < 0 || int(txInput.RefOffset) >= len(refTx.TxOutputs) {
+		t.log.Warn("undo: creating tx of a spent utxo not found, use the frozen height declared by the input",
+			"reftxid", utils.F(txInput.RefTxid), "offset", txInput.RefOffset, "err", err)
+		return txInput.FrozenHeight
+	}
+	return refTx.TxOutputs[txInput.RefOffset].FrozenHeight
 }
 
 func (t *State) procUndoBlkForWalk(undoBlocks []*pb.InternalBlock,
